@@ -172,6 +172,13 @@ class C29(core.Check):
                 cs.append(("main", "b", False, False, filed, ext, "text", lpre, [("close", False)], ("ctx", True)))
             cpre = [("hio", "d"), ("hio/clean", "d"), ("hio/clean/b", "d"), ("hio/clean/b/main.text" if (filed or ext) else "hio/clean/b/main", "lf" if (filed or ext) else "ld")]
             cs.append(("main", "b", False, True, filed, ext, "text", cpre, C))
+        for filed in (False, True):
+            # TempHeadDir is gone when remake runs: nothing may be created anywhere (not in the process default temp directory either)
+            nt = ("@/head", "@/head", "@/alt", None, True)
+            cs.append(("main", "", True, False, filed, False, "text", [], [("close", True)], None, nt))
+            cs.append(("main", "", False, False, filed, False, "text", [], [("close", False), ("doer", "do", True), ("close", True)], None, nt))
+            cs.append(("main", "", False, False, filed, False, "text", [], [("reopen", True, False, False, True, None), ("doer",), ("close", True)], ("ctx", False), nt))
+            cs.append(("main", "", False, False, filed, False, "text", [], [("remake", "x", "b", True, False, filed, False), ("close", True)], None, nt))
         sib = [("hio", "d"), ("hio/clean", "d"), ("hio/clean/b", "d"), ("hio/clean/b/keep", "f"), ("hio/clean/b/sib", "d"), ("hio/clean/b/sib/keep", "f")]
         for filed, ext in ((False, False), (True, False), (False, True), (True, True)):
             # the clean path is visited twice: what is there is removed, nothing next to it
@@ -361,6 +368,10 @@ class C29(core.Check):
             old_cwd = os.getcwd()
             os.environ["HOME"] = sb.home
             os.chdir(sb.cwd)
+            import tempfile
+            old_tmp = (tempfile.tempdir, os.environ.get("TMPDIR"))
+            tempfile.tempdir = sb.systmp          # the process default temp directory lies in the sandbox too
+            os.environ["TMPDIR"] = sb.systmp
             try:
                 if entry is None:
                     if stage(make):
@@ -378,6 +389,11 @@ class C29(core.Check):
                         run_steps()
                         stage(lambda: opened[0].__exit__(None, None, None))
             finally:
+                tempfile.tempdir = old_tmp[0]
+                if old_tmp[1] is None:
+                    os.environ.pop("TMPDIR", None)
+                else:
+                    os.environ["TMPDIR"] = old_tmp[1]
                 os.chdir(old_cwd)
                 if old_home is None:
                     os.environ.pop("HOME", None)
